@@ -214,6 +214,85 @@ def run(ctx):
         if "absent" in outs:
             res["hist"][f"hourly_{mname}_negative_predictions"] = int((outs["absent"]["predicted"] < 0).sum())
 
+    # ---- overlapping exports: the reporting frame is the concatenation of two exports that re-state some timestamps; the later
+    # export carries a REVISED temperature.  The data classes keep the first row of a timestamp (C17), so the weather of a
+    # duplicated timestamp is the first export's — whatever the usage column of either copy holds.
+    for (mname, hjs, electric) in hourly_models[: (1 if not thorough else 2)]:
+        for order in ("appended", "sorted"):
+            start, days = "2021-05-03", 10
+            idx = pd.date_range(pd.Timestamp(start, tz=TZ), periods=24 * days, freq="h")
+            h = np.arange(len(idx))
+            temp = pd.Series(55 + 20 * np.sin(h / 24 * 6.283), index=idx, name="temperature")
+            obs = pd.Series(1.5 + 0.5 * np.sin(h / 12.0) ** 2, index=idx, name="observed")
+            ov = slice(24 * 6, 24 * 8)                                   # two days re-stated by the second export
+            a = pd.DataFrame({"temperature": temp, "observed": obs})
+            b = pd.DataFrame({"temperature": temp.iloc[ov] + 9.0, "observed": obs.iloc[ov] * 1.1})
+            dvars = {"absent": None, "complete": (a["observed"].copy(), b["observed"].copy())}
+            blank = a["observed"].copy()
+            blank.iloc[ov] = np.nan
+            dvars["blank_on_first_copy"] = (blank, b["observed"].copy())
+            dvars["blank_on_first_copy_x0.5"] = (blank * 0.5, b["observed"] * 0.5)
+            dvars["blank_on_second_copy"] = (a["observed"].copy(), b["observed"] * np.nan)
+            outs = {}
+            for name, v in dvars.items():
+                fa, fb = a[["temperature"]].copy(), b[["temperature"]].copy()
+                if v is not None:
+                    fa["observed"], fb["observed"] = v[0], v[1]
+                df = pd.concat([fa, fb])
+                if order == "sorted":
+                    df = df.sort_index(kind="stable")
+                try:
+                    m = HourlyModel.from_json(hjs)
+                    outs[name] = m.predict(HourlyReportingData(df, is_electricity_data=electric), ignore_disqualification=True)
+                    res["evaluations"] += 1
+                except Exception as e:  # noqa
+                    res["hist"][f"hourly_dup_failed:{name}:{type(e).__name__}"] = res["hist"].get(f"hourly_dup_failed:{name}:{type(e).__name__}", 0) + 1
+            for name, o in outs.items():
+                if name != "absent" and "absent" in outs:
+                    compare(outs["absent"], o, "overlapping_exports:" + name, "hourly", res, dict(start=start, days=days, model=mname, order=order))
+                sigs.add(("hourly_dup", mname, name, order))
+    # the same for the daily family (duplicates are removed by `_set_data` of the daily classes)
+    for order in ("appended", "sorted"):
+        start, days = "2021-04-05", 40
+        idx = pd.date_range(pd.Timestamp(start, tz=TZ), periods=days, freq="D")
+        T = pd.Series(45 + 25 * np.sin(np.arange(days) / 9.0), index=idx, name="temperature")
+        O = pd.Series(20 + 5 * np.cos(np.arange(days) / 5.0), index=idx, name="observed")
+        ov = slice(30, 36)
+        a = pd.DataFrame({"temperature": T, "observed": O})
+        b = pd.DataFrame({"temperature": T.iloc[ov] + 11.0, "observed": O.iloc[ov] * 1.2})
+        blank = a["observed"].copy()
+        blank.iloc[ov] = np.nan
+        dvars = {"complete": (a["observed"].copy(), b["observed"].copy()), "scaled": (a["observed"] * 3.0, b["observed"] * 3.0),
+                 "blank_on_first_copy": (blank, b["observed"].copy()), "blank_on_second_copy": (a["observed"].copy(), b["observed"] * np.nan)}
+        outs = {}
+        for name, v in dvars.items():
+            fa, fb = a[["temperature"]].copy(), b[["temperature"]].copy()
+            fa["observed"], fb["observed"] = v[0], v[1]
+            df = pd.concat([fa, fb])
+            if order == "sorted":
+                df = df.sort_index(kind="stable")
+            try:
+                rd = DailyReportingData(df, is_electricity_data=True)
+                m = DailyModel.from_dict(shaped_doc("fw-su_sh_wi", dsettings))
+                outs[name] = m.predict(rd)
+                res["evaluations"] += 1
+            except Exception as e:  # noqa
+                res["hist"][f"daily_dup_failed:{name}:{type(e).__name__}"] = res["hist"].get(f"daily_dup_failed:{name}:{type(e).__name__}", 0) + 1
+        # a blanked usage day has no prediction (C07); where both runs predict, the values must agree
+        for name, o in outs.items():
+            if name != "complete" and "complete" in outs:
+                ra, rb = outs["complete"], o
+                common = ra.index.intersection(rb.index)
+                av, bv = ra.loc[common, "predicted"].to_numpy(dtype=float), rb.loc[common, "predicted"].to_numpy(dtype=float)
+                both = np.isfinite(av) & np.isfinite(bv)
+                bad = np.flatnonzero(both & (av != bv))
+                if len(bad):
+                    i = int(bad[0])
+                    res["oracle_failures"].append(dict(clause="prediction_depends_on_observed", family="daily", variant="overlapping_exports:" + name,
+                                                       stamp=str(common[i]), reference=float(av[i]), with_variant=float(bv[i]),
+                                                       rows_differing=int(len(bad)), order=order))
+            sigs.add(("daily_dup", name, order))
+
     # ---- CalTRACK hourly
     try:
         from opendsm.eemeter.models.hourly_caltrack.wrapper import HourlyModel as CTModel
